@@ -54,6 +54,9 @@ func c14Gens(base func(w *World) []OpGen) func(w *World) []OpGen {
 					return nil
 				}
 				amt := sdk.NewInt(r.Range(100000, 3000000))
+				if w.Cfg.K("esm_fast") != 0 {
+					amt = sdk.NewInt(5000000) // reaches any configured target at once
+				}
 				if amt.GT(bal) {
 					amt = bal
 				}
